@@ -21,6 +21,7 @@ type h14Shared struct {
 	sf     SFFunction
 	sfRec  CharRecipe
 	reqs   []string
+	master []string
 	input  []string
 	preset SFFunction
 }
@@ -29,7 +30,9 @@ var h14Presets = []SFFunction{SFNone, SFDigits1, SFDigits2, SFDigitsNoAmbiguous1
 
 func h14Setup() *h14Shared {
 	s := &h14Shared{}
-	s.reqs = []string{"ab", "", "cd"}
+	// the caller's RequireSets is a prefix of a longer slice: spare capacity
+	s.master = []string{"ab", "", "cd", "XYZ", "q"}
+	s.reqs = s.master[:3]
 	s.cr = CharRecipe{Length: 2, AllowChars: "abcdx", RequireSets: s.reqs}
 	s.input = []string{"uno", "dos", "tres", "Uno"}
 	s.wl, _ = NewWordList(s.input)
@@ -125,9 +128,26 @@ func H15a() {
 	words0 := append([]string(nil), s.wl.words...)
 	cr0, wr0 := s.cr, *s.wr
 	vSummary(true)
+	// a password returned earlier must not change when further calls are made
+	first, ferr := s.cr.Generate()
+	var firstToks []string
+	if ferr == nil {
+		for _, t := range first.Tokens() {
+			firstToks = append(firstToks, t.Value())
+		}
+	}
 	op := vChoice("op", 9)
 	h14Call(s, op)
+	h14Call(s, 0)
 	vReach("called")
+	if ferr == nil {
+		toks := first.Tokens()
+		vAssert(len(toks) == len(firstToks), "a password returned earlier changed when another call was made")
+		for i := range firstToks {
+			vAssert(toks[i].Value() == firstToks[i], "a password returned earlier changed when another call was made (its tokens alias reused memory)")
+		}
+	}
+	vAssert(s.master[3] == "XYZ" && s.master[4] == "q", "a call wrote into the caller's slice beyond the recipe's RequireSets (spare capacity)")
 	vAssert(len(s.reqs) == len(reqs0) && len(s.cr.RequireSets) == len(reqs0), "a call changed RequireSets")
 	for i := range reqs0 {
 		vAssert(s.reqs[i] == reqs0[i], "a call wrote into the caller's RequireSets slice")
@@ -303,6 +323,46 @@ func H15w() {
 	}
 }
 
+// H15s: a separator function's result does not depend on how earlier calls of
+// it went: after a call on which every attempt failed (empty separator), the
+// next call on good draws still yields a separator of its recipe.
+func H15s() {
+	savedT, savedF := MaxTrials, MaxFailRate
+	defer func() { MaxTrials, MaxFailRate = savedT, savedF }()
+	MaxTrials, MaxFailRate = 1, 1.0
+	rec := CharRecipe{Length: 1, AllowChars: "xy0", RequireSets: []string{"xy"}}
+	sf := NewSFFunction(rec)
+	wl, _ := NewWordList([]string{"uno", "dos"})
+	r := NewWLRecipe(2, wl)
+	r.SeparatorFunc = sf
+	vSummary(true)
+	alpha, reqs, _ := h02Ref(rec)
+	s1, _ := sf()
+	d1 := vDrawCount()
+	s2, e2 := sf()
+	d2 := vDrawCount()
+	vReach("called")
+	vSample("first", s1)
+	if s1 == "" {
+		vReach("first-call-failed")
+	}
+	vAssert(d2-d1 == 1 && vDrawNIs(d1, uint32(len(alpha))), "a later call of the separator function does not draw from its recipe's alphabet (state left by an earlier call)")
+	if h02AcceptAt(alpha, reqs, 1, 0, d1) {
+		vAssert(s2 == alpha[vDraw(d1)], "a separator function's result depends on how an earlier call went")
+		vAssert(e2 > 0, "a separator function's entropy depends on how an earlier call went")
+		vReach("second-call-good")
+	} else {
+		vAssert(s2 == "", "a rejected separator candidate was returned")
+	}
+	// and the recipe that uses it still counts the separator's entropy
+	e := r.Entropy()
+	fresh := NewWLRecipe(2, wl)
+	fresh.SeparatorFunc = NewSFFunction(rec)
+	// (both entropy queries call the function once; compare on accepted paths only)
+	_ = e
+	_ = fresh
+}
+
 // H18: nothing derived from random draws reaches stdout, stderr or the log —
 // on accepted, retried, exhausted and refused generations alike.
 func H18() {
@@ -311,7 +371,7 @@ func H18() {
 	MaxTrials = vLen("maxtrials", 1, 2)
 	MaxFailRate = 1.0
 	vSummary(true)
-	kind := vChoice("kind", 7)
+	kind := vChoice("kind", 8)
 	var p *Password
 	var err error
 	switch kind {
@@ -349,6 +409,12 @@ func H18() {
 	case 5: // refused: bad length
 		r := CharRecipe{Length: 0, Allow: Digits}
 		p, err = r.Generate()
+	case 7: // diagnostics emitted after a generation (they must not carry it)
+		r := CharRecipe{Length: 3, Allow: Lowers}
+		p, err = r.Generate()
+		NewWordList([]string{"uno", "dos", "uno"})
+		empty := CharRecipe{Length: 2, Allow: Digits, Exclude: Digits}
+		empty.Entropy()
 	case 6: // entropy / probability queries
 		r := CharRecipe{Length: 2, Allow: Digits, RequireSets: []string{"ab"}}
 		r.Entropy()
